@@ -43,6 +43,19 @@ Theorem C08_reactions_allowed : forall cfg its,
 Proof. intros cfg. exact (reactions_allowed hpack_state srv_dec_field srv_enc_field set_max_table_size cfg srv_init_hpack). Qed.
 Print Assumptions C08_reactions_allowed.
 
+(* Other schedules.  (a) is stated for lockstep schedules because only there "the reaction to frame k" is a
+   well-defined part of the trace: the outputs of the two steps that deal with it.  What carries over, and what does
+   not, when the read loop runs ahead of the stream loop:
+   - the read loop's verdict on a frame (forward / GOAWAY / close) depends on the frame and on sc_expectCont, which
+     only the read loop writes (C19_read_loop_frame, C19_stream_loop_event_frame): it is the same on every schedule;
+   - the stream loop sees the forwarded frames in the same order, and everything it reads but sc_closing/sc_closeRef
+     is written by itself only (C19_stream_loop_frame_frame, C19_read_loop_frame): with the same frames and the same
+     handler completions in between, it reacts the same as long as sc_closing is the same;
+   - sc_closing is shared: when the read loop has already answered a LATER frame with GOAWAY, the stream loop refuses
+     the new streams of EARLIER frames still in its queue (REFUSED_STREAM).  The table allows that too (RS.policy, and
+     6.8 after GOAWAY), but saying so needs a specification state with a queue of frames received and not yet reacted
+     to; that simulation has not been done, so no all-schedules version is stated. *)
+
 (* (c) On such a schedule, if a request was dispatched on stream sid, then at some point of the schedule
    the frames received on sid so far were exactly a complete request: HEADERS CONTINUATION* DATA*
    [HEADERS(END_STREAM) CONTINUATION*], END_STREAM on the last DATA or on the HEADERS of the last block,
@@ -93,19 +106,28 @@ Example C08_deviation_D6_settings_on_closed_stream :
     = RS.ConnErr c_StreamClosedError.
 Proof. exact (conj ex_D6_not_allowed ex_D6_goaway_code). Qed.
 
-(* (b) PARTIAL.  What is proved (a corollary of (a) and of the table): along a lockstep run, an input that the
-   table lets take effect in the specification state reached so far (RS.may_process; this is what RS.legal asks of
-   every frame) is - outside the known deviations, while the connection is not in error - processed, ignored, or
-   answered with an error of the classes the RFC leaves to the server's discretion (`mild`: REFUSED_STREAM,
-   ENHANCE_YOUR_CALM, CANCEL, INTERNAL_ERROR, PROTOCOL_ERROR for a malformed message, COMPRESSION_ERROR,
-   FLOW_CONTROL_ERROR, NO_ERROR in answer to GOAWAY): never STREAM_CLOSED, never FRAME_SIZE_ERROR. *)
+(* (b) PARTIAL.  What is proved (a corollary of (a) and of the table): along a lockstep run, a frame that the table
+   lets take effect in the specification state reached so far (RS.may_process: what RS.legal asks of every frame) is -
+   outside the known deviations, while the connection is neither in error nor shutting down - processed (a PRIORITY
+   frame may be ignored), or answered with one of the few errors the table lists next to "process" (`mild`,
+   Proofs/SrvRfcLegal.v):
+   - RST_STREAM with a code of the server's own reasons (REFUSED_STREAM, ENHANCE_YOUR_CALM, CANCEL, INTERNAL_ERROR,
+     PROTOCOL_ERROR for a malformed message), or FLOW_CONTROL_ERROR on DATA / WINDOW_UPDATE; never in answer to
+     RST_STREAM;
+   - GOAWAY or closing only on HEADERS / CONTINUATION (what decoding the block can end in: COMPRESSION_ERROR,
+     ENHANCE_YOUR_CALM, INTERNAL_ERROR, PROTOCOL_ERROR), FLOW_CONTROL_ERROR on DATA / WINDOW_UPDATE / SETTINGS, and when
+     the peer itself says GOAWAY;
+   so never STREAM_CLOSED or FRAME_SIZE_ERROR, and no connection error at all on RST_STREAM, PRIORITY or PING.
+   (The specification does not let the server escalate a reset of its own to a connection error, RS.PE; (a) shows the
+   model never does.) *)
 Theorem C08_legal_no_error_partial : forall cfg its,
-  forall pre i post, its = pre ++ IIn i :: post ->
+  forall pre fr post, its = pre ++ IIn (RFrame fr) :: post ->
     let c := fst (srv_run_items cfg (init_conn cfg srv_init_hpack) RS.init pre) in
     let s := snd (srv_run_items cfg (init_conn cfg srv_init_hpack) RS.init pre) in
-    sc_sl_done c = false -> RS.dead s = false ->
-    RS.may_process s (abs_input i) = true -> known_deviation hpack_state c s i = false ->
-    mild (resolve s (abs_input i) (reaction_of hpack_state c i (srv_feed cfg c (IIn i)))) = true.
+    sc_sl_done c = false -> RS.dead s = false -> RS.goaway s = false ->
+    RS.may_process s (RS.Frame (abs_frame fr)) = true -> known_deviation hpack_state c s (RFrame fr) = false ->
+    mild (abs_frame fr)
+         (resolve s (RS.Frame (abs_frame fr)) (reaction_of hpack_state c (RFrame fr) (srv_feed cfg c (IIn (RFrame fr))))) = true.
 Proof. intros cfg. exact (legal_reaction_class hpack_state srv_dec_field srv_enc_field set_max_table_size cfg srv_init_hpack). Qed.
 Print Assumptions C08_legal_no_error_partial.
 
@@ -122,35 +144,31 @@ Proof. exact ex_run_item4_legal. Qed.
    earlier frames produced) on odd stream ids below 512 (so that the 256-entry ring of closed streams never forgets)
    and without a GOAWAY frame, with any handler completions interleaved, during which the server raises no error of
    the discretionary classes, is served without any error at all: no RST_STREAM, no GOAWAY, no loop exit.
-   Checked by bounded exhaustive search (no counterexample among the legal sequences of length <= 5..7 over 2-3
-   streams, Proofs/SrvRfcExamples.v has the statement's ingredients); what a proof still needs:
+   (only_frames_and_completions, no_limit_error, no_error_at_all: Proofs/SrvRfcLegal.v.)  Checked by bounded
+   exhaustive search (no counterexample among the legal sequences of length <= 5..7 over 2-3 streams), and see the
+   example below; what a proof still needs:
    1. RS.legal follows the frames alone, (a) and the theorem above follow the specification state that also sees what
       the server sent (responses finished, the ring forgetting).  Linking the two needs the fact that with ids below
       512 the ring never evicts (ring entries are odd ids <= sc_highestID: an invariant not part of Proofs/SrvRfcSim.v)
       and a simulation between the two specification states.
-   2. (a) bounds the reaction by the table, and the table lets any stream error be escalated to a connection error or
-      to closing (5.4.1).  That the model does not do so on its own - GOAWAY(PROTOCOL_ERROR) is also what the header
-      decoder answers a malformed message with, on a perfectly legal frame sequence, so the trace cannot tell the two
-      apart - has to be read off each of the model's error sites (about 30 leaves of Proofs/SrvRfcSl.v / SrvRfcFrame.v). *)
-Definition frame_of_item (it : item) : list sframe := match it with IIn (RFrame f) => [f] | _ => [] end.
-Definition only_frames_and_completions (its : list item) : bool :=
-  forallb (fun it => match it with
-                     | IIn (RFrame f) => ((N.odd (sf_sid f) && (sf_sid f <? 512)) || (sf_sid f =? 0)) &&
-                                         negb (match sf_kind f with KGoAway => true | _ => false end)
-                     | IDone _ _ => true
-                     | _ => false
-                     end) its.
-Definition no_limit_error (o : outev) : bool :=
-  match strip_late o with
-  | ORst _ code => negb (stream_limit_code code)
-  | OGoAway _ code => negb (stream_limit_code code || conn_limit_code code)
-  | _ => true
-  end.
-Definition no_error_at_all (o : outev) : bool :=
-  match strip_late o with ORst _ _ | OGoAway _ _ | OExit _ _ | OPanic _ _ => false | _ => true end.
-
+   2. (a) bounds the reaction by the table, and the table lets a stream error the peer caused be escalated to a
+      connection error or to closing (5.4.1), and lists FLOW_CONTROL_ERROR next to "process" for DATA and
+      WINDOW_UPDATE.  That the model answers a legal frame with nothing of the kind has to be read off each of the
+      model's error sites (about 30 leaves of Proofs/SrvRfcSl.v / SrvRfcFrame.v); GOAWAY(PROTOCOL_ERROR) is also what
+      the header decoder answers a malformed message with, on a perfectly legal frame sequence, which is why the
+      statement counts it among the server's own errors.
+   3. The outputs of a step on OTHER streams than the frame's (flushStreams after a window grows) are described by
+      Proofs/SrvRfcBatch.v only as far as stream states go: that their RST_STREAMs are INTERNAL_ERROR is known to
+      Proofs/SrvRfcSend.v but not carried to the theorems. *)
 Definition C08_legal_no_error_statement : Prop := forall cfg its,
   only_frames_and_completions its = true ->
   RS.legal (map abs_frame (flat_map frame_of_item its)) = true ->
   let tr := trace (fst (srv_run_items cfg (init_conn cfg srv_init_hpack) RS.init its)) in
   forallb no_limit_error tr = true -> forallb no_error_at_all tr = true.
+
+(* an instance of the statement: a legal sequence on three streams, served without any error *)
+Example C08_example_legal_run :
+  only_frames_and_completions ex_legal = true /\
+  RS.legal (map abs_frame (flat_map frame_of_item ex_legal)) = true /\
+  forallb no_error_at_all (trace (fst (srv_run_items ex_cfg ex_init RS.init ex_legal))) = true.
+Proof. exact ex_legal_served. Qed.
